@@ -11,6 +11,11 @@ PROGS = ['acq0:0,acq1:1,tch0,tch1;swp0:0,swp1:1',
          'acq0:0,swp1:1;swp0:0;@0:swp0:0;@1:acq0:0,swp0:0']
 
 
+CHAIN = ['swp0:0,swp0:0;acq0:0,tch0,rst0', 'swp0:0;swp1:1;@0:swp0:0', 'rgn1,swp0:0,rgn0;swp1:1,swp1:1',
+         # a thread exits with reclaimable nodes in its local list (another thread was inside a region when they were retired and has left since)
+         'wai2,swp0:0,sig3,wai1;rgn1,sig2,wai3,rgn0,sig1', 'wai2,swp0:0,swp1:0,sig3,wai1;rgn1,acq0:0,sig2,wai3,rst0,rgn0,sig1']
+
+
 def run(ctx):
     build(['reclaim'])
     q = ctx.quick
@@ -27,6 +32,10 @@ def run(ctx):
             cfg = c if (c in NO_CUSTOM_DELETER or (i % 2 == 1)) else c + '+d'
             jobs.append('%s;;%s' % (cfg, p))
     run_client(ctx, jobs, pb=2 if q else 3, max_exec=500 if q else 20000)
+    # deleters that use the reclaimer themselves (config suffix +c: destroying a first-generation node retires a child node through a guard_ptr, from
+    # inside a scan / an epoch change / a thread exit): the child must be destroyed exactly once as well, the interrupted reclamation pass must survive
+    cjobs = ['%s+d+c;;%s' % (c, p) for c in (CORE if q else ALL) if c not in NO_CUSTOM_DELETER for p in CHAIN]
+    run_client(ctx, cjobs, pb=1 if q else 2, max_exec=120 if q else 5000, tag='chain')
     if not q:
         run_client(ctx, jobs, pb=5, max_exec=0, mode='random', runs=800)
     for r in ctx.tv[:2]:
